@@ -67,6 +67,82 @@ for _rel in FILES:
     obligation(f"C10.frame.evaluation_writes_no_state.{_rel.split('/')[-1][:-3]}.{_rel.split('/')[-2]}", "C10", [])(_h)
 
 
+_INPLACE = {"add_", "sub_", "mul_", "div_", "copy_", "fill_", "zero_", "scatter_", "scatter_add_", "index_add_", "index_copy_", "index_fill_",
+            "masked_fill_", "masked_scatter_", "clamp_", "exp_", "log_", "neg_", "pow_", "squeeze_", "unsqueeze_", "transpose_", "resize_", "set_"}
+_FRESH_CALLS = {"zeros", "ones", "empty", "full", "zeros_like", "ones_like", "empty_like", "full_like", "new_zeros", "new_ones", "new_empty", "new_full",
+                "clone", "arange", "tensor", "rand", "randn", "cat", "stack", "einsum", "sum", "prod", "exp", "log", "matmul", "where", "gather",
+                "logsumexp", "softmax", "sample", "rearrange", "repeat", "contiguous"}
+
+
+def _aliasing_updates(fn):
+    """in-place tensor updates (augmented assignment, `x[...] = ...`, trailing-underscore methods) whose target may alias an
+    argument or a stored output: the target name is a parameter, or is bound somewhere in the function to something that is not
+    a freshly allocated value (a subscript / attribute / other name is a view or an alias in torch)"""
+    params = {a.arg for a in fn.args.posonlyargs + fn.args.args + fn.args.kwonlyargs} - {"self", "cls"}
+    binds = {}
+    for n in ast.walk(fn):
+        if isinstance(n, ast.Assign):
+            for t in n.targets:
+                if isinstance(t, ast.Name):
+                    binds.setdefault(t.id, []).append(n.value)
+        elif isinstance(n, (ast.For, ast.comprehension)) and isinstance(n.target, ast.Name):
+            binds.setdefault(n.target.id, []).append(None)
+
+    def fresh(v):
+        if isinstance(v, ast.Call):
+            f = v.func
+            nm = f.attr if isinstance(f, ast.Attribute) else (f.id if isinstance(f, ast.Name) else "")
+            return nm in _FRESH_CALLS
+        return isinstance(v, (ast.BinOp, ast.Constant, ast.List, ast.Tuple, ast.ListComp, ast.UnaryOp))
+
+    def may_alias(name):
+        return name in params or name not in binds or not all(v is not None and fresh(v) for v in binds[name])
+
+    out = []
+    for n in ast.walk(fn):
+        tgt = None
+        if isinstance(n, ast.AugAssign):
+            tgt = n.target
+        elif isinstance(n, ast.Assign) and any(isinstance(t, ast.Subscript) for t in n.targets):
+            tgt = [t for t in n.targets if isinstance(t, ast.Subscript)][0]
+        elif isinstance(n, ast.Call) and isinstance(n.func, ast.Attribute) and n.func.attr in _INPLACE:
+            tgt = n.func.value
+        if tgt is None:
+            continue
+        base = tgt
+        while isinstance(base, (ast.Subscript, ast.Attribute)):
+            base = base.value
+        if isinstance(base, ast.Name) and isinstance(tgt, ast.Name) and isinstance(n, ast.AugAssign) and not may_alias(base.id):
+            continue
+        if isinstance(base, ast.Name) and not may_alias(base.id) and not isinstance(n, ast.AugAssign):
+            continue
+        if isinstance(base, ast.Name) and isinstance(n, ast.AugAssign) and isinstance(tgt, ast.Name):
+            # `i += 1` on a plain counter bound to a constant is fresh by the rule above; anything else may alias
+            pass
+        out.append((n.lineno, ast.unparse(tgt)[:40]))
+    return out
+
+
+_SAMPLE_FILES = ["cirkit/backend/torch/layers/inner.py", "cirkit/backend/torch/layers/input.py", "cirkit/backend/torch/layers/optimized.py",
+                 "cirkit/backend/torch/graph/modules.py", "cirkit/backend/torch/circuits.py", "cirkit/backend/torch/parameters/parameter.py",
+                 "cirkit/backend/torch/parameters/nodes.py"]
+for _prop in ("C15", "C01"):
+    for _rel in _SAMPLE_FILES:
+        def _h(vc, _rel=_rel):
+            """an evaluation / sampling method never updates in place a tensor that may be (a view of) one of its inputs or of an
+            output stored for later layers: `module_outputs[...]` entries are read again by every later consumer"""
+            mi = vc.repo.module_by_path(_rel)
+            n = 0
+            for ci in mi.classes.values():
+                for name, fi in ci.methods.items():
+                    if name in EVAL_METHODS or name in ("sample", "extended_forward"):
+                        n += 1
+                        vc.repo.touch(fi)
+                        vc.ensure(f"{ci.name}.{name}.no_in_place_update_of_possibly_aliased_tensors", not _aliasing_updates(fi.node))
+            vc.ensure("methods_found", n > 0)
+        obligation(f"{_prop}.frame.inputs_not_mutated.{_rel.split('/')[-1][:-3]}.{_rel.split('/')[-2]}", _prop, [])(_h)
+
+
 @obligation("C19.storage.learnable_tensors", "C19", ["cirkit/backend/torch/parameters/nodes.py:TorchTensorParameter.reset_parameters"])
 def _(vc):
     """nn.Parameter(...) is constructed in exactly one place of the torch backend: TorchTensorParameter.reset_parameters,
